@@ -97,6 +97,33 @@ def run(ctx):
                 if worst > 1e-9:
                     ctx.violate(f"view {vname} (i->j) and its reciprocal {rname} (j->i) differ by {worst:.3e} (relative) with use_directivity={ud}, use_attenuation={ua}",
                                 {**cjb, "view": vname, "scatterer": "sdh", "use_directivity": ud, "use_attenuation": ua}, {"kind": "reciprocity", "scatterer": "sdh"})
+        # ---- the same through the door of the full-time model (`scat_unshifted_transfer_functions`: H_ij = conj(Q_i Q'_j S)), which
+        #      forwards the four switches itself: every on/off combination of directivity and attenuation
+        sdh_door = scat.scat_factory("sdh", block, 0.5e-3)
+        door_names = []
+        for n_ in sub[:5]:
+            for m_ in (n_, ut.reciprocal_viewname(n_)):
+                if m_ not in door_names:
+                    door_names.append(m_)
+        door_views = {n_: views[n_] for n_ in door_names}
+        for ud, ua in [(True, True), (True, False), (False, True), (False, False)]:
+            try:
+                outs = dict(zip(door_names, bim.scat_unshifted_transfer_functions(door_views, tx, rx, freq, sdh_door, probe_element_width=width,
+                                                                                 use_directivity=ud, use_attenuation=ua)))
+            except Exception as e:
+                ctx.violate(f"scat_unshifted_transfer_functions raised {type(e).__name__}: {str(e)[:80]}", {**cjb, "use_directivity": ud, "use_attenuation": ua}, {"kind": "reciprocity_door"})
+                continue
+            ctx.count("transfer_function_door")
+            for vname in sub[:5]:
+                rname = ut.reciprocal_viewname(vname)
+                A, B = outs[vname][0][..., 0], outs[rname][0][..., 0]
+                ctx.case(("rec_door", rep, ud, ua, vname), True)
+                scale = np.abs(A).max() + 1e-300
+                worst = max(np.abs(A[:, i * numel + j] - B[:, j * numel + i]).max() / scale for i in range(numel) for j in range(numel))
+                if worst > 1e-9:
+                    ctx.violate(f"through scat_unshifted_transfer_functions, view {vname} (i->j) and its reciprocal {rname} (j->i) differ by {worst:.3e} (relative) "
+                                f"with use_directivity={ud}, use_attenuation={ua}", {**cjb, "view": vname, "use_directivity": ud, "use_attenuation": ua}, {"kind": "reciprocity_door"})
+                    break
         # ---- structure: Q / Q' is geometry independent and tied to the last mode
         ratios = {}
         for path in {v.tx_path for v in views.values()}:
